@@ -248,15 +248,21 @@ def get_model(
         assoc = getattr(lang_classes_factory.ns, assoc_name)()
         setattr(assoc, left_field, [left_asset])
         setattr(assoc, right_field, [right_asset])
-        if not (instance_model.association_exists_between_assets(
+        # Every link is returned twice by the query, once from each end.
+        # Note: association_exists_between_assets expects the assets in the
+        # order of the fields of the association, which only matters for
+        # associations between assets of the same type that can be linked in
+        # both directions.
+        first_field, _ = instance_model.get_association_field_names(assoc)
+        if str(first_field) == left_field:
+            first_asset, second_asset = left_asset, right_asset
+        else:
+            first_asset, second_asset = right_asset, left_asset
+        if not instance_model.association_exists_between_assets(
             assoc_name,
-            left_asset,
-            right_asset
-        ) or instance_model.association_exists_between_assets(
-            assoc_name,
-            right_asset,
-            left_asset
-        )):
+            first_asset,
+            second_asset
+        ):
             instance_model.add_association(assoc)
 
     return instance_model
